@@ -47,12 +47,33 @@ def strategy(tier, ctx):
     return plan_st(tier)
 
 
+def scribble(out):
+    if isinstance(out, dict):
+        for k in list(out):
+            out[k] = 123.5
+    elif isinstance(out, list):
+        for x in out:
+            scribble(x)
+        del out[:]
+
+
 def evaluate(plan, ctx):
     cfg = plan["config"]
     b = ops.build(cfg)
     twin.must_succeed(b, plan["prefix"], "prefix")
     t = copy.deepcopy(b)
-    twin.must_succeed(b, plan["burst"], "burst")
+    for i, op in enumerate(plan["burst"]):
+        if op[0] in ("predict", "predict_expectations") and plan.get("scribble", True):
+            # the answer belongs to the caller: whatever is done to the returned object (here: every value
+            # overwritten, every list emptied) must not reach the bandit
+            try:
+                raw = getattr(b, op[0])(ops._ctx(op[1])) if op[1] is not None else getattr(b, op[0])()
+            except Exception as e:
+                raise Violation("unexpected_exception", "burst op %d %s raised %r" % (i, op[0], e),
+                                bucket="unexpected_exception:%s:%s" % (op[0], type(e).__name__))
+            scribble(raw)
+        else:
+            twin.must_succeed(b, [op], "burst")
     mode = streams.align(b, t)
     twin.run_both(b, t, [["policies"]] + plan["cont"] + [["policies"]], "queried_vs_unqueried", "queried bandit",
                   "unqueried copy")
